@@ -162,3 +162,19 @@ Proof.
   intros e2. destruct upd_hyps as [H1 [H2 [H3 [H4 [H5 [H6 [H7 [H8 _]]]]]]]].
   exact (C01_replay_after_update uH us0 uh e2 H1 H2 H3 H4 H5 H6 H7 H8).
 Qed.
+
+(* non-vacuity: every theorem of this file that has hypotheses has a concrete, non-trivial instance meeting ALL of them
+   (lemmas <Theorem>_witness / <Theorem>_applied in Proofs/WitnessesP.v); a representative one is restated here *)
+From Snaps Require Import Proofs.WitnessesP.
+Example C01_witnesses :
+  (fresh w01_s0 /\ wf_fs (s_fs w01_s0) /\ Forall hist_op_ok w01_h /\ Forall has_value w01_h /\
+   Forall rec_ok (snd (run w01_s0 w01_h)) /\ map o_outcome (snd (run w01_s0 w01_h)) = w01_outcomes) /\
+  (fresh w01_us0 /\ headers_ok w01_uH /\ efs_ok w01_uH (s_fs w01_us0) /\
+   Forall hist_op_ok w01_uh /\ Forall has_value w01_uh /\ Forall rec_ok_upd (snd (run w01_us0 w01_uh)) /\
+   Forall (fact_ok w01_uH) (facts w01_us0 w01_uh) /\ consistent (facts w01_us0 w01_uh) /\
+   map o_outcome (snd (run w01_us0 w01_uh)) = w01_uoutcomes) /\
+  (fresh w01_ms0 /\ Forall mixed_op_ok w01_mh /\ Forall has_value w01_mh /\
+   wf_on (fun p => In p (map fpath (mfacts w01_ms0 w01_mh))) (s_fs w01_ms0) /\
+   disjoint_paths (mfacts w01_ms0 w01_mh) (sfacts w01_ms0 w01_mh) /\
+   Forall rec_ok (snd (run w01_ms0 w01_mh)) /\ map o_outcome (snd (run w01_ms0 w01_mh)) = w01_moutcomes).
+Proof. exact C01_witnesses_all. Qed.
